@@ -102,4 +102,12 @@ REGISTRY = {
         "the default constructor; returned list and solver.result: Generates(Relabel(target, map)) in all branches, "
         "EmissionShape, MapIsPerm, ListedLC, NoDuplicateGraphs.",
         "", "DESIGN.md 6/C10"),
+    "C13": (
+        "API-call histories over a heap of circuits / states; the behaviour of every live object logged after every call "
+        "and judged by a TLA+ frame condition (write sets) and rewrite-preservation clauses",
+        "Random interleavings of copy, unwrap, group, remove_identity, assign_noise (empty / non-empty), Monte-Carlo "
+        "assign_noise, compile (both backends, noise on/off), metrics, solver run, compare, export: FrameOK for every "
+        "object outside the write set (operations with noise descriptors, openQASM text, compiled state), RewriteOK, "
+        "DeterministicCompile, NoisyCopyOK.",
+        "", "DESIGN.md 6/C13"),
 }
